@@ -4,7 +4,7 @@ From stdpp Require Import gmap list.
 From Coq Require Import NArith Lia.
 From RopeVerif.Lib Require Import Text.
 From RopeVerif.C10 Require Import FsModel FsProofs Change ChangeProofs.
-From RopeVerif.C11 Require Import History ExecProofs CommuteProofs HistoryProofs SelectiveProofs.
+From RopeVerif.C11 Require Import History ExecProofs CommuteProofs HistoryProofs SelectiveProofs DeepenProofs.
 
 (* ---------------------------------------------------------------- change_eqb decides equality *)
 Fixpoint changes_eqb' (l l' : list change) : bool :=
@@ -88,7 +88,7 @@ Definition w_tree : list (list N * node) := [(pa, File cA); (pd, Dir); (pdb, Fil
 Definition w_ops : list op :=
   [ODo (CS 1 [CC pa cC None]); ODo (CS 2 [MV pd pe true]); ODo (CS 3 [CC peb cD None]);
    ODo (CS 4 [CS 41 [CR [6%N] true; CS 42 [CR [6%N; 7%N] false; CC [6%N; 7%N] cA None]]])].
-Definition w_hist : hist := hsteps true repaired 6 [] w_ops (st w_tree 100).
+Definition w_hist : hist := hsteps true repaired 6 (fun _ => false) w_ops (st w_tree 100).
 
 Lemma w_hist_consistent : Consistent 6 w_hist.
 Proof. apply consistentb_sound. vm_compute. reflexivity. Qed.
@@ -109,7 +109,7 @@ Qed.
 
 (* after that selective undo: selective redo of the edit of e/b (position 0 of the redo list [3; 2])
    must first redo the folder move that lies after it in the redo list *)
-Definition w_hist2 : hist := sres_state (hstep true repaired 6 [] (OUndo (Some 1) false) w_hist quiet).
+Definition w_hist2 : hist := sres_state (hstep true repaired 6 (fun _ => false) (OUndo (Some 1) false) w_hist quiet).
 
 Lemma selective_redo_example :
   Consistent 6 w_hist2 /\ 0 < length (h_redo w_hist2)
@@ -122,7 +122,7 @@ Qed.
 Lemma undo_after_do_example :
   exists s1 k1 deps,
     wf_fs (h_fs w_hist) /\ 0 < h_limit w_hist
-    /\ hstep true repaired 6 [] (ODo (CS 5 [MV pa [6%N; 1%N] false; CC [6%N; 1%N] cB None])) w_hist quiet = SOk s1 k1 deps
+    /\ hstep true repaired 6 (fun _ => false) (ODo (CS 5 [MV pa [6%N; 1%N] false; CC [6%N; 1%N] cB None])) w_hist quiet = SOk s1 k1 deps
     /\ irrev k1 = false /\ h_undo s1 <> h_undo w_hist.
 Proof.
   eexists. eexists. eexists.
@@ -132,7 +132,7 @@ Proof.
 Qed.
 
 Lemma limit_example :
-  within (st w_tree 2) /\ length (h_undo (hsteps true repaired 6 [] w_ops (st w_tree 2))) = 2.
+  within (st w_tree 2) /\ length (h_undo (hsteps true repaired 6 (fun _ => false) w_ops (st w_tree 2))) = 2.
 Proof. split; [vm_compute; lia|vm_compute; reflexivity]. Qed.
 
 Lemma swap_example :
@@ -156,7 +156,7 @@ Lemma remove_not_undoable_refuted :
     /\ hstep true repaired f ign (OUndo None false) s1 quiet = SErr s2 k2 (E NotImpl)
     /\ h_fs s !! pa = Some (File cA) /\ h_fs s2 !! pa = None /\ length (h_undo s2) = 1.
 Proof.
-  exists 4, [], (CS 1 [CC pb cC None; RM pa false]), (st [(pa, File cA); (pb, File cB)] 100).
+  exists 4, (fun _ => false), (CS 1 [CC pb cC None; RM pa false]), (st [(pa, File cA); (pb, File cB)] 100).
   eexists. eexists. eexists. eexists. eexists.
   split; [apply wf_fsb_sound; vm_compute; reflexivity|]. split; [reflexivity|].
   split; [vm_compute; reflexivity|]. split; [reflexivity|].
@@ -171,12 +171,12 @@ Qed.
    Consistent: for bp = false the hypothesis [cok] of the selective undo theorem cannot be dropped.
    The code under test is expected to be bp = true, for which no such hypothesis exists. *)
 Definition w_alias : hist :=
-  hsteps false repaired 6 [] [ODo (CS 1 [MV pa pda false]); ODo (CS 2 [CR pa true])] (st [(pa, File cA); (pd, Dir)] 100).
+  hsteps false repaired 6 (fun _ => false) [ODo (CS 1 [MV pa pda false]); ODo (CS 2 [CR pa true])] (st [(pa, File cA); (pd, Dir)] 100).
 
 Lemma class_blind_dependency_refuted :
   exists s s' k' deps,
     Consistent 6 s /\ class_ok (resources_list (h_undo s)) = false
-    /\ hstep false repaired 6 [] (OUndo (Some 0) false) s quiet = SOk s' k' deps
+    /\ hstep false repaired 6 (fun _ => false) (OUndo (Some 0) false) s quiet = SOk s' k' deps
     /\ deps = [0] /\ h_fs s' !! paa = Some (File cA) /\ consistentb 6 s' = false.
 Proof.
   exists w_alias. eexists. eexists. eexists.
@@ -189,7 +189,7 @@ Qed.
    state after is Consistent (as C11_selective_undo promises without [cok] for bp = true) *)
 Lemma class_blind_dependency_repaired :
   exists s' k' deps,
-    hstep true repaired 6 [] (OUndo (Some 0) false) w_alias quiet = SOk s' k' deps
+    hstep true repaired 6 (fun _ => false) (OUndo (Some 0) false) w_alias quiet = SOk s' k' deps
     /\ deps = [0; 1] /\ h_fs s' !! pa = Some (File cA) /\ consistentb 6 s' = true.
 Proof.
   eexists. eexists. eexists. split; [vm_compute; reflexivity|]. split; [reflexivity|].
@@ -205,7 +205,7 @@ Lemma move_overwrite_refuted :
     /\ hstep true repaired f ign (OUndo None false) s1 quiet = SOk s2 k2 d2
     /\ h_fs s !! pb = Some (File cB) /\ h_fs s2 !! pb = None.
 Proof.
-  exists 4, [], (CS 1 [MV pa pb false]), (st [(pa, File cA); (pb, File cB)] 100).
+  exists 4, (fun _ => false), (CS 1 [MV pa pb false]), (st [(pa, File cA); (pb, File cB)] 100).
   eexists. eexists. eexists. eexists. eexists. eexists.
   split; [apply wf_fsb_sound; vm_compute; reflexivity|]. split; [reflexivity|].
   split; [vm_compute; reflexivity|]. split; [reflexivity|].
@@ -219,15 +219,15 @@ Qed.
    redo() then WRITES d/a although a is back in place: both files exist, the step was not exactly
    reversible.  Only the undo half of Consistent survives a drop. *)
 Definition w_drop : hist :=
-  hsteps true repaired 6 [] [ODo (CS 1 [MV pa pda false]); ODo (CS 2 [CC pda cC None]); OUndo None false]
+  hsteps true repaired 6 (fun _ => false) [ODo (CS 1 [MV pa pda false]); ODo (CS 2 [CC pda cC None]); OUndo None false]
          (st [(pa, File cA); (pd, Dir)] 100).
 
 Lemma drop_stale_redo_refuted :
   exists s1 k1 d1 s2 k2 d2,
     Consistent 6 w_drop
-    /\ hstep true repaired 6 [] (OUndo None true) w_drop quiet = SOk s1 k1 d1
+    /\ hstep true repaired 6 (fun _ => false) (OUndo None true) w_drop quiet = SOk s1 k1 d1
     /\ consistentUb 6 s1 = true /\ consistentRb 6 s1 = false
-    /\ hstep true repaired 6 [] (ORedo None) s1 quiet = SOk s2 k2 d2
+    /\ hstep true repaired 6 (fun _ => false) (ORedo None) s1 quiet = SOk s2 k2 d2
     /\ irrev k2 = true
     /\ h_fs s2 !! pa = Some (File cA) /\ h_fs s2 !! pda = Some (File cC).
 Proof.
@@ -236,3 +236,73 @@ Proof.
   split; [vm_compute; reflexivity|]. split; [vm_compute; reflexivity|]. split; [vm_compute; reflexivity|].
   split; [vm_compute; reflexivity|]. split; [reflexivity|]. split; vm_compute; reflexivity.
 Qed.
+
+(* ------------------------------------------------------------ witnesses for the deepening theorems *)
+Definition no_ign : list N -> bool := fun _ => false.
+
+(* the four-change history above, with two undos and a redo, is a well-behaved session (it contains a folder
+   move and nested sets, so it is not in the syntactic class) *)
+Definition w_session : list op := w_ops ++ [OUndo (Some 1) false; ORedo (Some 0); OUndo None false].
+
+Lemma well_behaved_example :
+  wf_fs (list_to_map w_tree) /\ well_behaved_session true 6 no_ign w_session (st w_tree 100) = true
+  /\ static_session no_ign w_session = false
+  /\ length (h_undo (hsteps true repaired 6 no_ign w_session (st w_tree 100))) = 3
+  /\ length (h_redo (hsteps true repaired 6 no_ign w_session (st w_tree 100))) = 1.
+Proof.
+  split; [apply wf_fsb_sound; vm_compute; reflexivity|]. split; [vm_compute; reflexivity|].
+  split; [reflexivity|]. split; vm_compute; reflexivity.
+Qed.
+
+(* a session of the syntactic class: nested creations and fresh edits, a refused creation in the middle
+   (rolled back), undo and redo *)
+Definition w_static : list op :=
+  [ODo (CS 1 [CC pa cC None; CS 2 [CR pe true; CR [5%N; 1%N] false; CC [5%N; 1%N] cD None]]);
+   ODo (CS 3 [CC pdb cA None; CR pe true]);
+   ODo (CS 4 [CC pdb cD None]); OUndo (Some 0) false; ORedo None].
+
+Lemma static_example :
+  static_session no_ign w_static = true
+  /\ length (h_undo (hsteps true repaired 6 no_ign w_static (st w_tree 100))) = 2
+  /\ h_fs (hsteps true repaired 6 no_ign w_static (st w_tree 100)) !! pdb = Some (File cD).
+Proof. split; [reflexivity|]. split; vm_compute; reflexivity. Qed.
+
+(* a drop that is harmless: undo list [edit a; edit d/b], redo list [edit d/b again]; dropping the edit of a *)
+Definition w_dropok : hist :=
+  hsteps true repaired 6 no_ign
+    [ODo (CS 1 [CC pa cC None]); ODo (CS 2 [CC pdb cD None]); ODo (CS 3 [CC pdb cA None]); OUndo None false]
+    (st w_tree 100).
+
+Lemma drop_safe_example :
+  Consistent 6 w_dropok /\ 0 < length (h_undo w_dropok)
+  /\ (forall y z, In y (part true (marks true (h_undo w_dropok) 0) (h_undo w_dropok)) -> In z (h_redo w_dropok) ->
+                  apart (roots y) (roots z))
+  /\ length (h_redo w_dropok) = 1.
+Proof.
+  split; [apply consistentb_sound; vm_compute; reflexivity|]. split; [vm_compute; lia|].
+  split; [|vm_compute; reflexivity].
+  intros y z Hy Hz. vm_compute in Hy, Hz. destruct Hy as [<-|[]]. destruct Hz as [<-|[]].
+  intros p q Hp Hq. cbn in Hp, Hq. destruct Hp as [<-|[]]. destruct Hq as [<-|[]]. reflexivity.
+Qed.
+
+(* lowering the limit from 100 to 1 with three entries listed: nothing is trimmed until the next do *)
+Lemma limit_lowered_example :
+  length (h_undo (set_limit 1 w_hist)) = 4 /\ h_limit (set_limit 1 w_hist) = 1
+  /\ exists s' k' deps,
+       hstep true repaired 6 no_ign (ODo (CS 9 [CC pa cD None])) (set_limit 1 w_hist) quiet = SOk s' k' deps
+       /\ length (h_undo s') = 1.
+Proof.
+  split; [vm_compute; reflexivity|]. split; [reflexivity|].
+  eexists. eexists. eexists. split; [vm_compute; reflexivity|reflexivity].
+Qed.
+
+(* the matcher on the default patterns: x.pyc, d/.git and a~ are ignored, a.txt and d are not *)
+Definition w_tbl : list (N * list N) :=
+  [(1, [97; 46; 116; 120; 116]); (2, [120; 46; 112; 121; 99]); (3, [46; 103; 105; 116]); (4, [100]); (5, [97; 126])]%N.
+Definition w_pats : list (list N) := [[42; 46; 112; 121; 99]; [42; 126]; [46; 103; 105; 116]]%N.
+
+Lemma ignored_example :
+  ignored_by w_tbl w_pats [2%N] = true /\ ignored_by w_tbl w_pats [4%N; 3%N; 1%N] = true
+  /\ ignored_by w_tbl w_pats [5%N] = true /\ ignored_by w_tbl w_pats [1%N] = false
+  /\ ignored_by w_tbl w_pats [4%N; 1%N] = false.
+Proof. repeat split; vm_compute; reflexivity. Qed.
